@@ -163,6 +163,24 @@ def run(ctx, res):
         res.ok("DEF-SOURCE", "LocalBindings::set: innermost block, keyed by symbol.name, holding symbol.position")
     else:
         res.bad("DEF-SOURCE", TC + "LocalBindings::set # entry", "LocalBindings::set no longer stores (type, symbol.position) under symbol.name in the innermost block", ls_.loc())
+    # every definition that enters the scope must also enter the definition-position table: LocalBindings::set is called
+    # only by set_binding (which does both) -- a name put in scope directly has uses that resolve to it but no entry of
+    # its own, so renaming rewrites the uses and leaves the definition
+    SET_OK = {TC + "TypeCheckVisitor::<'_>::set_binding": "records the position too",
+              TC + "TypeCheckVisitor::<'_>::get_var_for_assignment": "binds an *unbound* name to the error type after reporting it, to stop cascading errors; there is no definition to record"}
+    n_set = 0
+    for p_, g in sorted(P.funcs.items()):
+        for bi, t in g.calls():
+            if M.callee_name(t) != TC + "LocalBindings::set":
+                continue
+            n_set += 1
+            if p_ in SET_OK:
+                res.ok("DEF-SOURCE", "%s puts a name in scope (%s)" % (p_.split("::")[-1], SET_OK[p_]))
+            else:
+                res.bad("DEF-SOURCE", p_ + " # scope-without-definition-position",
+                        "%s puts a symbol in scope with LocalBindings::set directly: uses of it resolve to its position, but the symbol itself has no "
+                        "entry in id_to_def_pos, so renaming it rewrites the uses and not the definition" % p_, g.loc(t.get("span")))
+    res.floor("DEF-SOURCE", "callers of LocalBindings::set", n_set, 2)
     # use sites and writers
     n_use = 0
     for p_, g in sorted(P.funcs.items()):
